@@ -1,6 +1,1147 @@
-//! C15 — stub (monitor not built yet).
-use crate::core::Ctx;
+//! C15 — SLURM local exceptions: drop decision, JSON round trip, assertions.
+//!
+//! Oracle: the match formula of the property statement, written here over
+//! plain tuples (family, address bits, length, ASN, key identifier octets);
+//! nothing of it calls into the library. A file drops a payload item exactly
+//! when one of its filters *of that kind* has at least one criterion and all
+//! its present criteria match.
+
+use crate::core::{hex, Ctx, Stage, Tier};
+use rpki::crypto::keys::KeyIdentifier;
+use rpki::resources::addr::{MaxLenPrefix, Prefix};
+use rpki::resources::asn::Asn;
+use rpki::rtr::payload::Payload;
+use rpki::rtr::pdu::{ProviderAsns, RouterKeyInfo};
+use rpki::slurm::{
+    AspaAssertion, AspaFilter, Base64KeyInfo, BgpsecAssertion, BgpsecFilter, LocallyAddedAssertions, PrefixAssertion, PrefixFilter, SlurmFile,
+    ValidationOutputFilters,
+};
+use serde_json::{json, Value};
+use std::net::{IpAddr, Ipv4Addr, Ipv6Addr};
+use std::str::FromStr;
+
+//============ Model ===========================================================
+
+/// A prefix as plain data: v4 addresses live in the low 32 bits.
+#[derive(Clone, Copy, Debug, PartialEq, Eq)]
+struct Pfx {
+    v4: bool,
+    addr: u128,
+    len: u8,
+}
+
+impl Pfx {
+    const fn v4(a: u8, b: u8, c: u8, d: u8, len: u8) -> Self {
+        Pfx { v4: true, addr: ((a as u128) << 24) | ((b as u128) << 16) | ((c as u128) << 8) | d as u128, len }
+    }
+    const fn v6(hi: u64, lo: u64, len: u8) -> Self {
+        Pfx { v4: false, addr: ((hi as u128) << 64) | lo as u128, len }
+    }
+    fn width(self) -> u32 {
+        if self.v4 {
+            32
+        } else {
+            128
+        }
+    }
+    fn ip(self) -> IpAddr {
+        if self.v4 {
+            IpAddr::V4(Ipv4Addr::from(self.addr as u32))
+        } else {
+            IpAddr::V6(Ipv6Addr::from(self.addr))
+        }
+    }
+    fn text(self) -> String {
+        format!("{}/{}", self.ip(), self.len)
+    }
+    fn lib(self) -> Prefix {
+        Prefix::new(self.ip(), self.len).expect("model prefix is valid")
+    }
+    /// `self` covers `other`: same family, not longer, same leading bits.
+    fn covers(self, other: Pfx) -> bool {
+        if self.v4 != other.v4 || self.len > other.len {
+            return false;
+        }
+        if self.len == 0 {
+            return true;
+        }
+        let shift = self.width() - self.len as u32;
+        (self.addr >> shift) == (other.addr >> shift)
+    }
+    fn relation(self, other: Pfx) -> &'static str {
+        if self.v4 != other.v4 {
+            "other-family"
+        } else if self == other {
+            "equal"
+        } else if self.covers(other) {
+            "less-specific"
+        } else if other.covers(self) {
+            "more-specific"
+        } else {
+            "disjoint"
+        }
+    }
+}
+
+type Ski = [u8; 20];
+
+#[derive(Clone, Debug)]
+enum Item {
+    Origin { prefix: Pfx, max_len: Option<u8>, asn: u32 },
+    RouterKey { ski: Ski, asn: u32, info: Vec<u8> },
+    Aspa { customer: u32, providers: Vec<u32> },
+}
+
+impl Item {
+    fn kind(&self) -> &'static str {
+        match self {
+            Item::Origin { .. } => "origin",
+            Item::RouterKey { .. } => "router-key",
+            Item::Aspa { .. } => "aspa",
+        }
+    }
+    fn lib(&self) -> Payload {
+        match self {
+            Item::Origin { prefix, max_len, asn } => Payload::origin(MaxLenPrefix::new(prefix.lib(), *max_len).expect("model max-len is valid"), Asn::from_u32(*asn)),
+            Item::RouterKey { ski, asn, info } => Payload::router_key(KeyIdentifier::from(*ski), Asn::from_u32(*asn), RouterKeyInfo::try_from(info.clone()).expect("key info")),
+            Item::Aspa { customer, providers } => Payload::aspa(Asn::from_u32(*customer), ProviderAsns::try_from_iter(providers.iter().map(|a| Asn::from_u32(*a))).expect("providers")),
+        }
+    }
+    fn json(&self) -> Value {
+        match self {
+            Item::Origin { prefix, max_len, asn } => json!({"kind": "origin", "prefix": prefix.text(), "maxLength": max_len, "asn": asn}),
+            Item::RouterKey { ski, asn, info } => json!({"kind": "router-key", "ski": hex(ski), "asn": asn, "keyInfoLen": info.len()}),
+            Item::Aspa { customer, providers } => json!({"kind": "aspa", "customer": customer, "providers": providers}),
+        }
+    }
+}
+
+#[derive(Clone, Debug, PartialEq)]
+struct PF {
+    prefix: Option<Pfx>,
+    asn: Option<u32>,
+    comment: Option<String>,
+}
+#[derive(Clone, Debug, PartialEq)]
+struct BF {
+    ski: Option<Ski>,
+    asn: Option<u32>,
+    comment: Option<String>,
+}
+#[derive(Clone, Debug, PartialEq)]
+struct AF {
+    customer: Option<u32>,
+    comment: Option<String>,
+}
+
+impl PF {
+    fn lib(&self) -> PrefixFilter {
+        PrefixFilter::new(self.prefix.map(Pfx::lib), self.asn.map(Asn::from_u32), self.comment.clone())
+    }
+    /// (matches, class text: presence and per-criterion outcome)
+    fn matches(&self, item: &Item) -> (bool, String) {
+        match item {
+            Item::Origin { prefix, asn, .. } => {
+                let p = self.prefix.map(|f| f.covers(*prefix));
+                let a = self.asn.map(|f| f == *asn);
+                let m = (p.is_some() || a.is_some()) && p.unwrap_or(true) && a.unwrap_or(true);
+                let rel = self.prefix.map(|f| f.relation(*prefix)).unwrap_or("absent");
+                (m, format!("prefix:{rel},asn:{}", tri(a)))
+            }
+            _ => (false, format!("prefix:{},asn:{} vs-other-kind", pres(self.prefix.is_some()), pres(self.asn.is_some()))),
+        }
+    }
+    fn json(&self) -> Value {
+        json!({"prefix": self.prefix.map(Pfx::text), "asn": self.asn, "comment": self.comment})
+    }
+}
+
+impl BF {
+    fn lib(&self) -> BgpsecFilter {
+        BgpsecFilter::new(self.ski.map(KeyIdentifier::from), self.asn.map(Asn::from_u32), self.comment.clone())
+    }
+    fn matches(&self, item: &Item) -> (bool, String) {
+        match item {
+            Item::RouterKey { ski, asn, .. } => {
+                let k = self.ski.map(|f| f == *ski);
+                let a = self.asn.map(|f| f == *asn);
+                let m = (k.is_some() || a.is_some()) && k.unwrap_or(true) && a.unwrap_or(true);
+                (m, format!("ski:{},asn:{}", tri(k), tri(a)))
+            }
+            _ => (false, format!("ski:{},asn:{} vs-other-kind", pres(self.ski.is_some()), pres(self.asn.is_some()))),
+        }
+    }
+    fn json(&self) -> Value {
+        json!({"ski": self.ski.map(|k| hex(&k)), "asn": self.asn, "comment": self.comment})
+    }
+}
+
+impl AF {
+    fn lib(&self) -> AspaFilter {
+        AspaFilter::new(self.customer.map(Asn::from_u32), self.comment.clone())
+    }
+    fn matches(&self, item: &Item) -> (bool, String) {
+        match item {
+            Item::Aspa { customer, .. } => {
+                let c = self.customer.map(|f| f == *customer);
+                (c.unwrap_or(false), format!("customer:{}", tri(c)))
+            }
+            _ => (false, format!("customer:{} vs-other-kind", pres(self.customer.is_some()))),
+        }
+    }
+    fn json(&self) -> Value {
+        json!({"customerAsid": self.customer, "comment": self.comment})
+    }
+}
+
+fn tri(x: Option<bool>) -> &'static str {
+    match x {
+        None => "absent",
+        Some(true) => "match",
+        Some(false) => "miss",
+    }
+}
+
+fn pres(x: bool) -> &'static str {
+    if x {
+        "present"
+    } else {
+        "absent"
+    }
+}
+
+/// The filter part of a file as plain data.
+#[derive(Clone, Debug, Default)]
+struct Filters {
+    prefix: Vec<PF>,
+    bgpsec: Vec<BF>,
+    aspa: Option<Vec<AF>>,
+}
+
+impl Filters {
+    fn lib(&self) -> ValidationOutputFilters {
+        let mut f = ValidationOutputFilters::new(self.prefix.iter().map(PF::lib).collect::<Vec<_>>(), self.bgpsec.iter().map(BF::lib).collect::<Vec<_>>());
+        f.aspa = self.aspa.as_ref().map(|v| v.iter().map(AF::lib).collect());
+        f
+    }
+    /// The statement's formula.
+    fn drops(&self, item: &Item) -> bool {
+        match item {
+            Item::Origin { .. } => self.prefix.iter().any(|f| f.matches(item).0),
+            Item::RouterKey { .. } => self.bgpsec.iter().any(|f| f.matches(item).0),
+            Item::Aspa { .. } => self.aspa.iter().flatten().any(|f| f.matches(item).0),
+        }
+    }
+    fn class_for(&self, item: &Item) -> String {
+        let parts: Vec<String> = match item {
+            Item::Origin { .. } => self.prefix.iter().map(|f| f.matches(item).1).collect(),
+            Item::RouterKey { .. } => self.bgpsec.iter().map(|f| f.matches(item).1).collect(),
+            Item::Aspa { .. } => self.aspa.iter().flatten().map(|f| f.matches(item).1).collect(),
+        };
+        parts.join(" | ")
+    }
+    fn own_len(&self, item: &Item) -> usize {
+        match item {
+            Item::Origin { .. } => self.prefix.len(),
+            Item::RouterKey { .. } => self.bgpsec.len(),
+            Item::Aspa { .. } => self.aspa.as_ref().map(|v| v.len()).unwrap_or(0),
+        }
+    }
+    fn json(&self) -> Value {
+        json!({
+            "prefixFilters": self.prefix.iter().map(PF::json).collect::<Vec<_>>(),
+            "bgpsecFilters": self.bgpsec.iter().map(BF::json).collect::<Vec<_>>(),
+            "aspaFilters": self.aspa.as_ref().map(|v| v.iter().map(AF::json).collect::<Vec<_>>()),
+        })
+    }
+}
+
+//============ The enumerated universe =========================================
+
+const AS_A: u32 = 64500;
+const AS_B: u32 = 64501;
+const AS_C: u32 = 4_200_000_000;
+
+const SKI_K: Ski = [0x11, 0x22, 0x33, 0x44, 0x55, 0x66, 0x77, 0x88, 0x99, 0xaa, 0xbb, 0xcc, 0xdd, 0xee, 0xff, 0x00, 0x01, 0x02, 0x03, 0x04];
+
+fn ski_last_bit() -> Ski {
+    let mut k = SKI_K;
+    k[19] ^= 1;
+    k
+}
+
+fn ski_first_bit() -> Ski {
+    let mut k = SKI_K;
+    k[0] ^= 0x80;
+    k
+}
+
+fn filter_prefixes() -> Vec<Pfx> {
+    vec![
+        Pfx::v4(0, 0, 0, 0, 0),
+        Pfx::v4(10, 0, 0, 0, 8),
+        Pfx::v4(10, 1, 0, 0, 16),
+        Pfx::v4(10, 1, 1, 0, 24),
+        Pfx::v4(10, 2, 0, 0, 16),
+        Pfx::v4(10, 1, 1, 1, 32),
+        Pfx::v6(0, 0, 0),
+        Pfx::v6(0x2001_0db8_0000_0000, 0, 32),
+        Pfx::v6(0x2001_0db8_0000_0000, 1, 128),
+    ]
+}
+
+fn prefix_specs() -> Vec<PF> {
+    let mut v = Vec::new();
+    let mut prefixes: Vec<Option<Pfx>> = vec![None];
+    prefixes.extend(filter_prefixes().into_iter().map(Some));
+    for p in &prefixes {
+        for a in [None, Some(AS_A), Some(AS_B)] {
+            v.push(PF { prefix: *p, asn: a, comment: None });
+        }
+    }
+    v.push(PF { prefix: None, asn: None, comment: Some("only a comment".into()) });
+    v
+}
+
+fn bgpsec_specs() -> Vec<BF> {
+    let mut v = Vec::new();
+    for k in [None, Some(SKI_K), Some(ski_last_bit()), Some(ski_first_bit())] {
+        for a in [None, Some(AS_A), Some(AS_B)] {
+            v.push(BF { ski: k, asn: a, comment: None });
+        }
+    }
+    v.push(BF { ski: None, asn: None, comment: Some("only a comment".into()) });
+    v
+}
+
+fn aspa_specs() -> Vec<AF> {
+    let mut v = Vec::new();
+    for c in [None, Some(AS_A), Some(AS_B), Some(0), Some(u32::MAX)] {
+        for comment in [None, Some("c".to_string())] {
+            v.push(AF { customer: c, comment });
+        }
+    }
+    v
+}
+
+fn payloads() -> Vec<Item> {
+    vec![
+        Item::Origin { prefix: Pfx::v4(10, 1, 0, 0, 16), max_len: Some(24), asn: AS_A },
+        Item::Origin { prefix: Pfx::v4(10, 1, 1, 0, 24), max_len: None, asn: AS_B },
+        Item::Origin { prefix: Pfx::v4(10, 1, 1, 1, 32), max_len: Some(32), asn: AS_A },
+        Item::Origin { prefix: Pfx::v4(0, 0, 0, 0, 0), max_len: Some(8), asn: AS_C },
+        Item::Origin { prefix: Pfx::v6(0x2001_0db8_0000_0000, 0, 32), max_len: Some(48), asn: AS_A },
+        Item::Origin { prefix: Pfx::v6(0x2001_0db8_0000_0000, 1, 128), max_len: None, asn: AS_B },
+        Item::Origin { prefix: Pfx::v6(0, 0x0000_ffff_0a01_0000, 112), max_len: None, asn: AS_A }, // ::ffff:10.1.0.0/112
+        Item::RouterKey { ski: SKI_K, asn: AS_A, info: vec![0x30, 0x59, 0x30, 0x13] },
+        Item::RouterKey { ski: SKI_K, asn: AS_B, info: vec![] },
+        Item::RouterKey { ski: ski_last_bit(), asn: AS_A, info: vec![1, 2, 3] },
+        Item::RouterKey { ski: ski_first_bit(), asn: AS_C, info: vec![0xff; 91] },
+        Item::Aspa { customer: AS_A, providers: vec![AS_B, AS_C] },
+        Item::Aspa { customer: AS_B, providers: vec![] },
+        Item::Aspa { customer: 0, providers: vec![AS_A] },
+        Item::Aspa { customer: u32::MAX, providers: vec![AS_A, AS_A] },
+    ]
+}
+
+/// Filters of the *other* kinds that accompany an enumerated list.
+fn context(which: usize, own: &str) -> Filters {
+    let mut f = Filters::default();
+    if which == 0 {
+        return f;
+    }
+    // one criterion-free filter and one ASN-only filter for AS_A in every other kind:
+    // they must act on their own kind only
+    if own != "origin" {
+        f.prefix = vec![PF { prefix: None, asn: None, comment: None }, PF { prefix: None, asn: Some(AS_A), comment: None }];
+    }
+    if own != "router-key" {
+        f.bgpsec = vec![BF { ski: None, asn: None, comment: None }, BF { ski: None, asn: Some(AS_A), comment: None }];
+    }
+    if own != "aspa" {
+        f.aspa = Some(vec![AF { customer: None, comment: None }, AF { customer: Some(AS_A), comment: None }]);
+    }
+    f
+}
+
+struct DropStats {
+    evals: u64,
+    dropped: u64,
+    kept: u64,
+    files: u64,
+}
+
+/// One file against all payload items.
+fn check_file(ctx: &mut Ctx, st: &mut DropStats, filters: &Filters, items: &[(Item, Payload)]) {
+    let lib_filters = filters.lib();
+    let file = SlurmFile::new(lib_filters.clone(), LocallyAddedAssertions::default());
+    st.files += 1;
+    for (item, payload) in items {
+        let want = filters.drops(item);
+        let got = file.drop_payload(payload);
+        let got2 = lib_filters.drop_payload(payload);
+        st.evals += 1;
+        if got {
+            st.dropped += 1;
+        } else {
+            st.kept += 1;
+        }
+        if got != want {
+            let what = if want { "filter-matches-but-kept" } else { "dropped-without-matching-filter" };
+            ctx.violation(
+                &format!("C15:file-drop:{}:{}", item.kind(), what),
+                &format!("SlurmFile::drop_payload = {} for a {} item, the statement's formula gives {} ({})", got, item.kind(), want, filters.class_for(item)),
+                json!({"filters": filters.json(), "payload": item.json(), "expected_drop": want, "observed_drop": got}),
+            );
+        }
+        if got2 != got {
+            ctx.violation(
+                "C15:file-drop:file-and-filters-disagree",
+                "SlurmFile::drop_payload and ValidationOutputFilters::drop_payload differ",
+                json!({"filters": filters.json(), "payload": item.json(), "file": got, "filters_result": got2}),
+            );
+        }
+        if filters.own_len(item) > 0 {
+            ctx.sig(&format!("drop {} [{}] -> {}", item.kind(), filters.class_for(item), want));
+        }
+    }
+}
+
+/// Every single filter against every payload item (own kind: the formula;
+/// other kinds: never), through drop_payload and the kind-specific method.
+fn check_single_filters(ctx: &mut Ctx, st: &mut DropStats, items: &[(Item, Payload)]) {
+    let report = |ctx: &mut Ctx, fkind: &str, class: &str, want: bool, got: bool, method: &str, fjson: Value, item: &Item| {
+        ctx.violation(
+            &format!("C15:{}-filter:{}:{}", fkind, class.replace(' ', "_"), if want { "kept" } else { "dropped" }),
+            &format!("{} filter {} = {} but the formula gives {} ({})", fkind, method, got, want, class),
+            json!({"filter": fjson, "payload": item.json(), "method": method, "expected_drop": want, "observed_drop": got}),
+        );
+    };
+    for spec in prefix_specs() {
+        let f = spec.lib();
+        for (item, payload) in items {
+            let (want, class) = spec.matches(item);
+            let got = f.drop_payload(payload);
+            st.evals += 1;
+            if got != want {
+                report(ctx, "prefix", &class, want, got, "drop_payload", spec.json(), item);
+            }
+            if let Payload::Origin(o) = payload {
+                let got = f.drop_origin(*o);
+                st.evals += 1;
+                if got != want {
+                    report(ctx, "prefix", &class, want, got, "drop_origin", spec.json(), item);
+                }
+            }
+            ctx.sig(&format!("single prefix-filter {} -> {}", class, want));
+        }
+    }
+    for spec in bgpsec_specs() {
+        let f = spec.lib();
+        for (item, payload) in items {
+            let (want, class) = spec.matches(item);
+            let got = f.drop_payload(payload);
+            st.evals += 1;
+            if got != want {
+                report(ctx, "bgpsec", &class, want, got, "drop_payload", spec.json(), item);
+            }
+            if let Payload::RouterKey(k) = payload {
+                let got = f.drop_router_key(k);
+                st.evals += 1;
+                if got != want {
+                    report(ctx, "bgpsec", &class, want, got, "drop_router_key", spec.json(), item);
+                }
+            }
+            ctx.sig(&format!("single bgpsec-filter {} -> {}", class, want));
+        }
+    }
+    for spec in aspa_specs() {
+        let f = spec.lib();
+        for (item, payload) in items {
+            let (want, class) = spec.matches(item);
+            let got = f.drop_payload(payload);
+            st.evals += 1;
+            if got != want {
+                report(ctx, "aspa", &class, want, got, "drop_payload", spec.json(), item);
+            }
+            if let Payload::Aspa(a) = payload {
+                let got = f.drop_aspa(a);
+                st.evals += 1;
+                if got != want {
+                    report(ctx, "aspa", &class, want, got, "drop_aspa", spec.json(), item);
+                }
+            }
+            ctx.sig(&format!("single aspa-filter {} -> {}", class, want));
+        }
+    }
+}
+
+/// Calls `f` with every list of length 0..=max over `n` specs (as index lists).
+fn for_each_list(n: usize, max: usize, mut f: impl FnMut(&[usize])) {
+    let mut cur: Vec<usize> = Vec::new();
+    f(&cur);
+    for len in 1..=max {
+        cur.clear();
+        cur.resize(len, 0);
+        loop {
+            f(&cur);
+            // increment
+            let mut i = len;
+            loop {
+                if i == 0 {
+                    break;
+                }
+                i -= 1;
+                cur[i] += 1;
+                if cur[i] < n {
+                    break;
+                }
+                cur[i] = 0;
+                if i == 0 {
+                    i = usize::MAX;
+                    break;
+                }
+            }
+            if i == usize::MAX {
+                break;
+            }
+        }
+    }
+}
+
+fn part_drop(ctx: &mut Ctx) {
+    let items: Vec<(Item, Payload)> = payloads().into_iter().map(|i| (i.clone(), i.lib())).collect();
+    let mut st = DropStats { evals: 0, dropped: 0, kept: 0, files: 0 };
+    let nshards = ctx.nshards.max(1);
+    // Native stages enumerate everything (split over shards); the
+    // instrumented stages take every `thin`-th file.
+    let (max_len, thin): (usize, u64) = match ctx.stage {
+        Stage::Native => (3, 1),
+        Stage::Asan => (3, 7),
+        _ => (3, 1613),
+    };
+    let ps = prefix_specs();
+    let bs = bgpsec_specs();
+    let as_ = aspa_specs();
+    if !matches!(ctx.stage, Stage::Native | Stage::Asan) {
+        // interpreter stage: walking the whole index space costs more than
+        // the budget; draw files from it at random instead
+        let mut rng = ctx.rng("miri-files");
+        let n = ctx.stage_budget((0, 0), 0, if ctx.tier == Tier::Thorough { 240 } else { 72 }, 100);
+        let few: Vec<(Item, Payload)> = items.iter().enumerate().filter(|(i, _)| i % 2 == (ctx.shard % 2) as usize).map(|(_, x)| x.clone()).collect();
+        for _ in 0..n {
+            let kind = rng.below(3);
+            let own = ["origin", "router-key", "aspa"][kind as usize];
+            let mut f = context(rng.usize_below(2), own);
+            let len = rng.usize_below(4);
+            match kind {
+                0 => f.prefix = (0..len).map(|_| rng.pick(&ps).clone()).collect(),
+                1 => f.bgpsec = (0..len).map(|_| rng.pick(&bs).clone()).collect(),
+                _ => f.aspa = Some((0..len).map(|_| rng.pick(&as_).clone()).collect()),
+            }
+            check_file(ctx, &mut st, &f, &few);
+        }
+        ctx.evals(st.evals);
+        ctx.obs("drop_decisions_dropped", st.dropped);
+        ctx.obs("drop_decisions_kept", st.kept);
+        ctx.obs("filter_files_built", st.files);
+        return;
+    }
+    if ctx.shard == 0 {
+        check_single_filters(ctx, &mut st, &items);
+    }
+    let mut file_idx: u64 = 0;
+    let shard = ctx.shard;
+    let take = |i: u64| -> bool {
+        if thin > 1 {
+            i % thin == 0 && (i / thin) % nshards == shard
+        } else {
+            i % nshards == shard
+        }
+    };
+    for which in 0..2 {
+        let base = context(which, "origin");
+        for_each_list(ps.len(), max_len, |idx| {
+            let i = file_idx;
+            file_idx += 1;
+            if !take(i) {
+                return;
+            }
+            let mut f = base.clone();
+            f.prefix = idx.iter().map(|&k| ps[k].clone()).collect();
+            check_file(ctx, &mut st, &f, &items);
+        });
+        let base = context(which, "router-key");
+        for_each_list(bs.len(), max_len, |idx| {
+            let i = file_idx;
+            file_idx += 1;
+            if !take(i) {
+                return;
+            }
+            let mut f = base.clone();
+            f.bgpsec = idx.iter().map(|&k| bs[k].clone()).collect();
+            check_file(ctx, &mut st, &f, &items);
+        });
+        let base = context(which, "aspa");
+        for_each_list(as_.len(), max_len, |idx| {
+            let i = file_idx;
+            file_idx += 1;
+            if !take(i) {
+                return;
+            }
+            let mut f = base.clone();
+            f.aspa = Some(idx.iter().map(|&k| as_[k].clone()).collect());
+            check_file(ctx, &mut st, &f, &items);
+            if idx.is_empty() {
+                // no ASPA member at all
+                f.aspa = None;
+                check_file(ctx, &mut st, &f, &items);
+            }
+        });
+    }
+    // mixed files: one filter of every kind, all combinations of a reduced spec set
+    {
+        let pick = |n: usize| -> Vec<usize> { (0..n).step_by(2).collect() };
+        for &a in &pick(ps.len()) {
+            for &b in &pick(bs.len()) {
+                for &c in &pick(as_.len()) {
+                    let i = file_idx;
+                    file_idx += 1;
+                    if !take(i) {
+                        continue;
+                    }
+                    let f = Filters { prefix: vec![ps[a].clone()], bgpsec: vec![bs[b].clone()], aspa: Some(vec![as_[c].clone()]) };
+                    check_file(ctx, &mut st, &f, &items);
+                }
+            }
+        }
+    }
+    if ctx.stage == Stage::Native {
+        ctx.exhaustive = Some(true);
+    }
+    ctx.evals(st.evals);
+    ctx.obs("drop_decisions_dropped", st.dropped);
+    ctx.obs("drop_decisions_kept", st.kept);
+    ctx.obs("filter_files_built", st.files);
+    if ctx.shard == 0 {
+        let f = Filters { prefix: vec![PF { prefix: Some(Pfx::v4(10, 0, 0, 0, 8)), asn: Some(AS_B), comment: None }], ..Default::default() };
+        let file = SlurmFile::new(f.lib(), LocallyAddedAssertions::default());
+        for k in [0usize, 1] {
+            let (item, payload) = &items[k];
+            let (want, got) = (f.drops(item), file.drop_payload(payload));
+            ctx.sample("drop", || json!({"filters": f.json(), "payload": item.json(), "formula": want, "observed": got}));
+        }
+        let f = Filters { bgpsec: vec![BF { ski: Some(SKI_K), asn: None, comment: None }], ..Default::default() };
+        let file = SlurmFile::new(f.lib(), LocallyAddedAssertions::default());
+        let (item, payload) = &items[7];
+        let (want, got) = (f.drops(item), file.drop_payload(payload));
+        ctx.sample("drop", || json!({"filters": f.json(), "payload": item.json(), "formula": want, "observed": got}));
+    }
+}
+
+//============ JSON round trip and assertions ==================================
+
+#[derive(Clone, Debug, Default)]
+struct FileSpec {
+    filters: Filters,
+    prefix: Vec<(Pfx, Option<u8>, u32, Option<String>)>,
+    bgpsec: Vec<(u32, Ski, Vec<u8>, Option<String>)>,
+    aspa: Option<Vec<(u32, Vec<u32>, Option<String>)>>,
+}
+
+fn random_comment(rng: &mut crate::core::Rng) -> Option<String> {
+    if rng.chance(2, 5) {
+        return None;
+    }
+    let specials: &[char] = &[
+        '"', '\\', '/', '\u{0}', '\u{1}', '\u{8}', '\n', '\r', '\t', '\u{1f}', '\u{7f}', '\u{80}', '\u{a0}', '\u{2028}', '\u{2029}', '\u{feff}', '\u{fffd}',
+        '\u{ffff}', '\u{10000}', '\u{1f600}', '\u{10ffff}', '\u{301}', '\u{d7ff}', '\u{e000}', '{', '}', '[', ']', ':', ',', ' ',
+    ];
+    let len = rng.usize_below(12);
+    let mut s = String::new();
+    for _ in 0..len {
+        let c = match rng.below(4) {
+            0 => *rng.pick(specials),
+            1 => char::from_u32(rng.below(0x11_0000) as u32).unwrap_or('\u{fffd}'),
+            _ => (b'a' + rng.below(26) as u8) as char,
+        };
+        s.push(c);
+    }
+    Some(s)
+}
+
+fn random_pfx(rng: &mut crate::core::Rng) -> Pfx {
+    if rng.chance(1, 6) {
+        return *rng.pick(&filter_prefixes());
+    }
+    if rng.chance(1, 12) {
+        // v4-mapped v6 space
+        let len = 96 + rng.below(33) as u8;
+        let addr = (0xffffu128 << 32) | rng.next_u32() as u128;
+        let shift = 128 - len as u32;
+        let addr = if shift == 0 { addr } else { (addr >> shift) << shift };
+        return Pfx { v4: false, addr, len };
+    }
+    if rng.bool() {
+        let len = match rng.below(4) {
+            0 => 0,
+            1 => 32,
+            _ => rng.below(33) as u8,
+        };
+        let raw = rng.next_u32() as u128;
+        let addr = if len == 0 { 0 } else { (raw >> (32 - len as u32)) << (32 - len as u32) };
+        Pfx { v4: true, addr, len }
+    } else {
+        let len = match rng.below(4) {
+            0 => 0,
+            1 => 128,
+            _ => rng.below(129) as u8,
+        };
+        let raw = rng.next_u128();
+        let addr = if len == 0 { 0 } else { (raw >> (128 - len as u32)) << (128 - len as u32) };
+        Pfx { v4: false, addr, len }
+    }
+}
+
+fn random_asn(rng: &mut crate::core::Rng) -> u32 {
+    match rng.below(5) {
+        0 => 0,
+        1 => u32::MAX,
+        2 => *rng.pick(&[AS_A, AS_B, AS_C, 65535, 65536, 23456]),
+        _ => rng.next_u32(),
+    }
+}
+
+fn random_ski(rng: &mut crate::core::Rng) -> Ski {
+    let mut k = [0u8; 20];
+    match rng.below(5) {
+        0 => {}
+        1 => k = [0xff; 20],
+        2 => k = SKI_K,
+        _ => k.copy_from_slice(&rng.bytes(20)),
+    }
+    k
+}
+
+fn random_file(rng: &mut crate::core::Rng, big: bool) -> FileSpec {
+    let mut f = FileSpec::default();
+    let n = |rng: &mut crate::core::Rng| -> usize {
+        if rng.chance(1, 4) {
+            0
+        } else {
+            rng.usize_below(5)
+        }
+    };
+    for _ in 0..n(rng) {
+        f.filters.prefix.push(PF { prefix: if rng.bool() { Some(random_pfx(rng)) } else { None }, asn: if rng.bool() { Some(random_asn(rng)) } else { None }, comment: random_comment(rng) });
+    }
+    for _ in 0..n(rng) {
+        f.filters.bgpsec.push(BF { ski: if rng.bool() { Some(random_ski(rng)) } else { None }, asn: if rng.bool() { Some(random_asn(rng)) } else { None }, comment: random_comment(rng) });
+    }
+    if rng.bool() {
+        let mut v = Vec::new();
+        for _ in 0..n(rng) {
+            v.push(AF { customer: if rng.chance(3, 4) { Some(random_asn(rng)) } else { None }, comment: random_comment(rng) });
+        }
+        f.filters.aspa = Some(v);
+    }
+    for _ in 0..n(rng) {
+        let p = random_pfx(rng);
+        let max = if p.v4 { 32u8 } else { 128 };
+        let max_len = match rng.below(4) {
+            0 => None,
+            1 => Some(p.len),
+            2 => Some(max),
+            _ => Some(p.len + rng.below((max - p.len) as u64 + 1) as u8),
+        };
+        f.prefix.push((p, max_len, random_asn(rng), random_comment(rng)));
+    }
+    for _ in 0..n(rng) {
+        let ilen = match rng.below(4) {
+            0 => 0,
+            1 => 91,
+            _ => rng.usize_below(200),
+        };
+        f.bgpsec.push((random_asn(rng), random_ski(rng), rng.bytes(ilen), random_comment(rng)));
+    }
+    if rng.bool() {
+        let mut v = Vec::new();
+        for _ in 0..n(rng) {
+            let np = if big && rng.chance(1, 50) { 2000 } else { rng.usize_below(7) };
+            let mut provs: Vec<u32> = (0..np).map(|_| random_asn(rng)).collect();
+            if rng.bool() {
+                provs.sort();
+            }
+            v.push((random_asn(rng), provs, random_comment(rng)));
+        }
+        f.aspa = Some(v);
+    }
+    f
+}
+
+impl FileSpec {
+    fn lib(&self) -> SlurmFile {
+        let mut a = LocallyAddedAssertions::new(
+            self.prefix
+                .iter()
+                .map(|(p, ml, asn, c)| PrefixAssertion::new(MaxLenPrefix::new(p.lib(), *ml).expect("max-len"), Asn::from_u32(*asn), c.clone()))
+                .collect::<Vec<_>>(),
+            self.bgpsec
+                .iter()
+                .map(|(asn, ski, info, c)| BgpsecAssertion::new(Asn::from_u32(*asn), KeyIdentifier::from(*ski), Base64KeyInfo::try_from(info.clone()).expect("key info"), c.clone()))
+                .collect::<Vec<_>>(),
+        );
+        a.aspa = self.aspa.as_ref().map(|v| {
+            v.iter()
+                .map(|(cust, provs, c)| AspaAssertion::new(Asn::from_u32(*cust), ProviderAsns::try_from_iter(provs.iter().map(|x| Asn::from_u32(*x))).expect("providers"), c.clone()))
+                .collect()
+        });
+        SlurmFile::new(self.filters.lib(), a)
+    }
+
+    /// The payload items the assertions stand for, in file order.
+    fn items(&self) -> Vec<Item> {
+        let mut v = Vec::new();
+        for (p, ml, asn, _) in &self.prefix {
+            v.push(Item::Origin { prefix: *p, max_len: *ml, asn: *asn });
+        }
+        for (asn, ski, info, _) in &self.bgpsec {
+            v.push(Item::RouterKey { ski: *ski, asn: *asn, info: info.clone() });
+        }
+        for (cust, provs, _) in self.aspa.iter().flatten() {
+            v.push(Item::Aspa { customer: *cust, providers: provs.clone() });
+        }
+        v
+    }
+
+    /// RFC 8416 (+ASPA draft) JSON text written without the library.
+    fn handwritten_json(&self, version: u8) -> String {
+        fn b64url(data: &[u8]) -> String {
+            const T: &[u8; 64] = b"ABCDEFGHIJKLMNOPQRSTUVWXYZabcdefghijklmnopqrstuvwxyz0123456789-_";
+            let mut s = String::new();
+            for c in data.chunks(3) {
+                let n = (c[0] as u32) << 16 | (*c.get(1).unwrap_or(&0) as u32) << 8 | *c.get(2).unwrap_or(&0) as u32;
+                s.push(T[(n >> 18) as usize & 63] as char);
+                s.push(T[(n >> 12) as usize & 63] as char);
+                if c.len() > 1 {
+                    s.push(T[(n >> 6) as usize & 63] as char);
+                }
+                if c.len() > 2 {
+                    s.push(T[n as usize & 63] as char);
+                }
+            }
+            s
+        }
+        fn put(o: &mut serde_json::Map<String, Value>, k: &str, v: Option<Value>) {
+            if let Some(v) = v {
+                o.insert(k.into(), v);
+            }
+        }
+        let mut filters = serde_json::Map::new();
+        filters.insert(
+            "prefixFilters".into(),
+            Value::Array(
+                self.filters
+                    .prefix
+                    .iter()
+                    .map(|f| {
+                        let mut o = serde_json::Map::new();
+                        put(&mut o, "prefix", f.prefix.map(|p| json!(p.text())));
+                        put(&mut o, "asn", f.asn.map(|a| json!(a)));
+                        put(&mut o, "comment", f.comment.clone().map(Value::String));
+                        Value::Object(o)
+                    })
+                    .collect(),
+            ),
+        );
+        filters.insert(
+            "bgpsecFilters".into(),
+            Value::Array(
+                self.filters
+                    .bgpsec
+                    .iter()
+                    .map(|f| {
+                        let mut o = serde_json::Map::new();
+                        put(&mut o, "SKI", f.ski.map(|k| json!(b64url(&k))));
+                        put(&mut o, "asn", f.asn.map(|a| json!(a)));
+                        put(&mut o, "comment", f.comment.clone().map(Value::String));
+                        Value::Object(o)
+                    })
+                    .collect(),
+            ),
+        );
+        if let Some(v) = &self.filters.aspa {
+            filters.insert(
+                "aspaFilters".into(),
+                Value::Array(
+                    v.iter()
+                        .map(|f| {
+                            let mut o = serde_json::Map::new();
+                            put(&mut o, "customerAsid", f.customer.map(|a| json!(a)));
+                            put(&mut o, "comment", f.comment.clone().map(Value::String));
+                            Value::Object(o)
+                        })
+                        .collect(),
+                ),
+            );
+        }
+        let mut assertions = serde_json::Map::new();
+        assertions.insert(
+            "prefixAssertions".into(),
+            Value::Array(
+                self.prefix
+                    .iter()
+                    .map(|(p, ml, asn, c)| {
+                        let mut o = serde_json::Map::new();
+                        o.insert("prefix".into(), json!(p.text()));
+                        o.insert("asn".into(), json!(asn));
+                        put(&mut o, "maxPrefixLength", ml.map(|m| json!(m)));
+                        put(&mut o, "comment", c.clone().map(Value::String));
+                        Value::Object(o)
+                    })
+                    .collect(),
+            ),
+        );
+        assertions.insert(
+            "bgpsecAssertions".into(),
+            Value::Array(
+                self.bgpsec
+                    .iter()
+                    .map(|(asn, ski, info, c)| {
+                        let mut o = serde_json::Map::new();
+                        o.insert("asn".into(), json!(asn));
+                        o.insert("SKI".into(), json!(b64url(ski)));
+                        o.insert("routerPublicKey".into(), json!(b64url(info)));
+                        put(&mut o, "comment", c.clone().map(Value::String));
+                        Value::Object(o)
+                    })
+                    .collect(),
+            ),
+        );
+        if let Some(v) = &self.aspa {
+            assertions.insert(
+                "aspaAssertions".into(),
+                Value::Array(
+                    v.iter()
+                        .map(|(cust, provs, c)| {
+                            let mut o = serde_json::Map::new();
+                            o.insert("customerAsn".into(), json!(cust));
+                            o.insert("providerAsns".into(), json!(provs));
+                            put(&mut o, "comment", c.clone().map(Value::String));
+                            Value::Object(o)
+                        })
+                        .collect(),
+                ),
+            );
+        }
+        json!({"slurmVersion": version, "validationOutputFilters": filters, "locallyAddedAssertions": assertions}).to_string()
+    }
+}
+
+/// Compares one library payload item with the model item, field by field.
+fn same_item(model: &Item, got: &Payload) -> Result<(), String> {
+    match (model, got) {
+        (Item::Origin { prefix, max_len, asn }, Payload::Origin(o)) => {
+            let p = o.prefix.prefix();
+            if p.addr() != prefix.ip() || p.len() != prefix.len {
+                return Err(format!("prefix {}/{} instead of {}", p.addr(), p.len(), prefix.text()));
+            }
+            if o.prefix.max_len() != *max_len {
+                return Err(format!("max-length {:?} instead of {:?}", o.prefix.max_len(), max_len));
+            }
+            if o.asn.into_u32() != *asn {
+                return Err(format!("asn {} instead of {}", o.asn.into_u32(), asn));
+            }
+            Ok(())
+        }
+        (Item::RouterKey { ski, asn, info }, Payload::RouterKey(k)) => {
+            if k.key_identifier.as_slice() != ski {
+                return Err(format!("key identifier {} instead of {}", hex(k.key_identifier.as_slice()), hex(ski)));
+            }
+            if k.asn.into_u32() != *asn {
+                return Err(format!("asn {} instead of {}", k.asn.into_u32(), asn));
+            }
+            if k.key_info.as_slice() != info.as_slice() {
+                return Err(format!("key info {} instead of {}", hex(k.key_info.as_slice()), hex(info)));
+            }
+            Ok(())
+        }
+        (Item::Aspa { customer, providers }, Payload::Aspa(a)) => {
+            if a.customer.into_u32() != *customer {
+                return Err(format!("customer {} instead of {}", a.customer.into_u32(), customer));
+            }
+            let got: Vec<u32> = a.providers.iter().map(|x| x.into_u32()).collect();
+            if &got != providers {
+                return Err(format!("providers {:?} instead of {:?}", got, providers));
+            }
+            Ok(())
+        }
+        (m, g) => Err(format!("a {} assertion yields a {:?} item", m.kind(), g.payload_type())),
+    }
+}
+
+fn check_items(ctx: &mut Ctx, spec: &FileSpec, file: &SlurmFile, origin: &str, text: &str) -> u64 {
+    let want = spec.items();
+    let got: Vec<Payload> = file.assertions.iter_payload().collect();
+    if got.len() != want.len() {
+        ctx.violation(
+            &format!("C15:iter_payload:count:{}", origin),
+            &format!("iter_payload yields {} items for {} assertions", got.len(), want.len()),
+            json!({"json": text}),
+        );
+        return 1;
+    }
+    for (i, (m, g)) in want.iter().zip(got.iter()).enumerate() {
+        if let Err(e) = same_item(m, g) {
+            ctx.violation(
+                &format!("C15:iter_payload:{}:{}", m.kind(), origin),
+                &format!("item {} of iter_payload: {}", i, e),
+                json!({"json": text, "index": i, "assertion": m.json()}),
+            );
+        }
+    }
+    want.len() as u64 + 1
+}
+
+fn part_json(ctx: &mut Ctx) {
+    let n = ctx.stage_budget((5_000, 2_000_000), 3_000, if ctx.tier == Tier::Thorough { 32 } else { 8 }, 0);
+    let mut rng = ctx.rng("json");
+    let mut evals = 0u64;
+    let (mut with_aspa, mut hand_ok, mut hand_rej, mut hand_eq) = (0u64, 0u64, 0u64, 0u64);
+    for i in 0..n {
+        let spec = random_file(&mut rng, ctx.tier == Tier::Thorough && ctx.stage == Stage::Native);
+        let mut file = spec.lib();
+        if i % 11 == 0 && spec.filters.aspa.is_none() && spec.aspa.is_none() {
+            // a version-1 file that gained an ASPA member through its public field
+            file.filters.aspa = Some(vec![AspaFilter::new(Some(Asn::from_u32(1)), None)]);
+        }
+        let has_aspa = file.filters.aspa.is_some() || file.assertions.aspa.is_some();
+        if has_aspa {
+            with_aspa += 1;
+        }
+        let shape = format!(
+            "json aspa-filters={} aspa-assertions={} pf={} bf={} pa={} ba={} comments={}",
+            file.filters.aspa.as_ref().map(|v| v.len().min(2) as i32).unwrap_or(-1),
+            file.assertions.aspa.as_ref().map(|v| v.len().min(2) as i32).unwrap_or(-1),
+            file.filters.prefix.len().min(2),
+            file.filters.bgpsec.len().min(2),
+            file.assertions.prefix.len().min(2),
+            file.assertions.bgpsec.len().min(2),
+            spec.prefix.iter().any(|x| x.3.is_some()) || spec.filters.prefix.iter().any(|x| x.comment.is_some()),
+        );
+        ctx.sig(&shape);
+        // compact and pretty, through from_str and from_reader
+        let compact = match ctx.no_panic("to_string", || json!({"spec": format!("{:?}", spec)}), || file.to_string()) {
+            Some(s) => s,
+            None => continue,
+        };
+        let pretty = match ctx.no_panic("to_string_pretty", || json!({"spec": format!("{:?}", spec)}), || file.to_string_pretty()) {
+            Some(s) => s,
+            None => continue,
+        };
+        for (name, text) in [("compact", &compact), ("pretty", &pretty)] {
+            evals += 1;
+            match SlurmFile::from_str(text) {
+                Ok(back) => {
+                    if back != file {
+                        ctx.violation(
+                            &format!("C15:json-roundtrip:{}:not-equal", name),
+                            "from_str(to_string(file)) != file",
+                            json!({"json": text, "reparsed": back.to_string()}),
+                        );
+                    }
+                }
+                Err(e) => {
+                    ctx.violation(
+                        &format!("C15:json-roundtrip:{}:rejected", name),
+                        &format!("the file's own JSON is rejected: {}", e),
+                        json!({"json": text}),
+                    );
+                }
+            }
+        }
+        evals += 1;
+        match SlurmFile::from_reader(compact.as_bytes()) {
+            Ok(back) if back == file => {}
+            other => {
+                ctx.violation("C15:json-roundtrip:from_reader", "from_reader(to_string(file)) != file", json!({"json": compact, "error": other.err().map(|e| e.to_string())}));
+            }
+        }
+        let mut w = Vec::new();
+        if file.to_writer(&mut w).is_ok() {
+            evals += 1;
+            if w != compact.as_bytes() {
+                ctx.obs("to_writer_differs_from_to_string", 1);
+            }
+        }
+        // the assertions yield exactly their fields
+        if i % 11 != 0 || has_aspa == (spec.filters.aspa.is_some() || spec.aspa.is_some()) {
+            evals += check_items(ctx, &spec, &file, "constructed", &compact);
+        }
+        // a file written by hand from the same data
+        let version = if spec.filters.aspa.is_some() || spec.aspa.is_some() || rng.chance(1, 4) { 2 } else { 1 };
+        let hand = spec.handwritten_json(version);
+        match SlurmFile::from_str(&hand) {
+            Ok(parsed) => {
+                hand_ok += 1;
+                evals += check_items(ctx, &spec, &parsed, "parsed", &hand);
+                // what it says about dropping equals what the model says
+                for item in spec.items().iter().take(4) {
+                    evals += 1;
+                    let want = spec.filters.drops(item);
+                    let got = parsed.drop_payload(&item.lib());
+                    if got != want {
+                        let what = if want { "filter-matches-but-kept" } else { "dropped-without-matching-filter" };
+                        ctx.violation(
+                            &format!("C15:file-drop:{}:{}", item.kind(), what),
+                            &format!("parsed file: drop_payload = {}, formula gives {}", got, want),
+                            json!({"json": hand, "payload": item.json()}),
+                        );
+                    }
+                }
+                evals += 1;
+                match SlurmFile::from_str(&parsed.to_string()) {
+                    Ok(back) if back == parsed => {}
+                    other => {
+                        ctx.violation(
+                            "C15:json-roundtrip:parsed-file",
+                            "a parsed file does not survive to_string/from_str",
+                            json!({"json": hand, "error": other.err().map(|e| e.to_string())}),
+                        );
+                    }
+                }
+                if parsed.filters == spec.filters.lib() && parsed.assertions == spec.lib().assertions {
+                    hand_eq += 1;
+                }
+            }
+            Err(_) => {
+                hand_rej += 1;
+            }
+        }
+        if i < 2 && ctx.shard == 0 {
+            let n_items = spec.items().len();
+            ctx.sample("json", || json!({"compact": compact, "assertions": n_items, "reparsed_equal": SlurmFile::from_str(&compact).map(|b| b == file).unwrap_or(false)}));
+        }
+    }
+    // the two degenerate files
+    for file in [SlurmFile::default(), SlurmFile::new(ValidationOutputFilters::default(), LocallyAddedAssertions::default())] {
+        evals += 1;
+        match SlurmFile::from_str(&file.to_string()) {
+            Ok(back) if back == file => {}
+            _ => ctx.violation("C15:json-roundtrip:empty-file", "an empty file does not round-trip", json!({"json": file.to_string()})),
+        }
+    }
+    ctx.evals(evals);
+    ctx.obs("json_files", n);
+    ctx.obs("json_files_with_aspa_member", with_aspa);
+    ctx.obs("handwritten_json_accepted", hand_ok);
+    ctx.obs("handwritten_json_rejected", hand_rej);
+    ctx.obs("handwritten_json_equal_to_constructed", hand_eq);
+}
 
 pub fn run(ctx: &mut Ctx) {
-    ctx.notes.push("C15: monitor not built yet".into());
+    ctx.breadcrumb("C15 drop");
+    part_drop(ctx);
+    ctx.breadcrumb("C15 json");
+    part_json(ctx);
 }
